@@ -3,13 +3,13 @@ import json
 from vlib import core
 from checks import codec_common as cc
 
-THEOREMS = ['success_iff', 'status_exposed', 'error_message', 'other_type', 'no_success_on_wrong_type', 'statusable_complete', 'error_message_type']
-MODULES = ['LLRP.Model.SendFor', 'LLRP.Model.Codec', 'LLRP.Model.Schema', 'LLRP.Model.Bytes']
+THEOREMS = ['src_sendFor', 'src_sendFor_value', 'src_status_err', 'success_iff', 'status_exposed', 'error_message', 'other_type', 'no_success_on_wrong_type', 'statusable_complete', 'error_message_type']
+MODULES = ['LLRP.Model.GoSeq', 'LLRP.Proofs.SeqSendFor', 'LLRP.Proofs.SeqInitial', 'LLRP.Model.SendFor', 'LLRP.Model.Codec', 'LLRP.Model.Schema', 'LLRP.Model.Bytes']
 RULE = ('a scripted peer (hand-built frames) answers real Client.SendFor calls: all 43x43 (expected type, reply type) pairs over the types a caller can be handed (KeepAlive, ROAccessReport, ReaderEventNotification are never delivered as replies: C03) with generated payloads plus reserved/zero type codes; '
         'status codes 0..65535 (every 7th in quick, all in thorough) through status-only responses and through ERROR_MESSAGE, with descriptions and nested FieldError/ParameterError shapes; '
         'responses with fields around the status and truncated payloads. Each observation (nil | status <LLRPStatus value> | err, and the caller\'s response value afterwards) is judged by the Lean monitor check-sendfor. '
         'distinct = distinct request lines; non-trivial = the model outcome is not typeerr')
-ASSUMPTIONS = ['SendFor model is hand-written (LLRP.Model.SendFor), tied by this differential run; reply payloads are decoded with the verified codec model over the regenerated table',
+ASSUMPTIONS = ['the SendFor model (LLRP.Model.SendFor) is proved to give the error class and response value of the go2seq translation of Client.SendFor / LLRPStatus.Err (src_sendFor, src_sendFor_value; the meaning of the calls they make is SeqGlue.sfEnv: hand-written) and is tied to the real code by this differential run; reply payloads are decoded with the verified codec model over the regenerated table',
                'Statusable = has an LLRPStatus parameter (statusable_complete ties it to the Status() methods extracted from the source)']
 TRUSTED = ['scripted peer and reflection walker (harness)']
 
